@@ -99,9 +99,9 @@ def bgzf_block(data):
     return hdr + cdata + struct.pack("<II", zlib.crc32(data) & 0xffffffff, len(data) & 0xffffffff)
 
 
-def bgzf_compress(data, sizes=None, eof=True, empty_every=0):
+def bgzf_compress(data, sizes=None, eof=True, empty_every=0, empty_first=False):
     """sizes: iterable of uncompressed block sizes (cycled); default 65280."""
-    out = []
+    out = [bgzf_block(b"")] if empty_first else []
     i = 0
     k = 0
     sizes = list(sizes) if sizes else [65280]
